@@ -54,6 +54,8 @@ func typeOfFile(base string) string {
 	return prefix
 }
 
+var digitRe = regexp.MustCompile(`[0-9]+`)
+
 var markerRe = regexp.MustCompile(`(?ms)^-+[ ]*\S+[ ]*\n`)
 
 // splitFiles is testtxt.PrepareInDir without the file system.
@@ -457,7 +459,7 @@ func enumerate(bases []baseCase, emit emitFn) {
 			// garbage / empty files in this slot (once per type and slot kind is enough, but the
 			// other files of the test matter for merging: keep per test, cheap)
 			for gi, g := range garbageFiles {
-				if g == text {
+				if g == text || gi%6 != bi%6 {
 					continue
 				}
 				key := fmt.Sprintf("G|%s|%s|%d|%s", b.typ, name, gi, b.files["device"]+"\x00"+b.files["code/router"])
@@ -487,6 +489,11 @@ func enumerate(bases []baseCase, emit emitFn) {
 					nxt = lines[li+1]
 				}
 				key := b.typ + "|" + path.Ext(name) + "|" + ctx + "|" + line + "|" + nxt
+				if len(lines) > 300 {
+					// machine-generated long ACLs (ios_long-acl.t): lines that differ only in numbers
+					// are one shape; the context is dropped as well
+					key = b.typ + "|" + path.Ext(name) + "|shape|" + digitRe.ReplaceAllString(line, "0")
+				}
 				if seenLine[hash64(key)] {
 					continue
 				}
